@@ -320,29 +320,69 @@ def designer_names(md):
 
 
 def candidates(design, md):
-    """every name the elaborator would build in this module, before collision suffixes"""
-    c = []
+    """(hot, cold): every name the elaborator WILL build in this module before collision suffixes (implicit signals of
+    unconnected / no-connected ports, array elements, pair members, flattened bundle members), and the inst_port names of
+    ordinarily connected ports (never built: decoys)"""
+    hot, cold = [], []
     for x in md["insts"]:
         bp = bports(design, x["of"])
         names = [x["name"]]
         if x.get("pair"):
             names = [f"{x['name']}_p", f"{x['name']}_n"]
-            c += names
+            hot += names
         if x["n"] > 0:
-            c += [f"{x['name']}_{k}" for k in range(x["n"])]
+            hot += [f"{x['name']}_{k}" for k in range(x["n"])]
+        conns = dict((port, e) for port, e in x["conns"])
         for nm in names:
             for port in all_port_names(design, x["of"]):
-                c.append(f"{nm}_{port}")
+                e = conns.get(port)
+                implicit = e is None or (e[0] == "nc" and e[2] is None)
+                base = e[2] if (e is not None and e[0] == "nc" and e[2] is not None) else f"{nm}_{port}"
+                tgt = hot if (implicit or (e is not None and e[0] == "nc")) else cold
+                tgt.append(base)
                 if port in bp:
-                    c += [f"{nm}_{port}_{'_'.join(p)}" for p, w in bpaths(design, bp[port])]
-        for port, e in x["conns"]:
-            if e[0] == "nc" and e[2] is not None:
-                c.append(e[2])
-                if port in bp:
-                    c += [f"{e[2]}_{'_'.join(p)}" for p, w in bpaths(design, bp[port])]
+                    tgt += [f"{base}_{'_'.join(p)}" for p, w in bpaths(design, bp[port])]
     for b, k, port in md.get("bundles", []):
-        c += [f"{b}_{'_'.join(p)}" for p, w in bpaths(design, k)]
-    return sorted(set(c))
+        hot += [f"{b}_{'_'.join(p)}" for p, w in bpaths(design, k)]
+    return sorted(set(hot)), sorted(set(cold) - set(hot))
+
+
+def add_ref_groups(design, r, tries=3):
+    """Turn some ordinary connections into a source-less reference group: x.p left unconnected, y.q = x.p
+    (the elaborator then invents the implicit signal x_p)."""
+    for mi in reachable(design):
+        md = design["mods"][mi]
+        single = [x for x in md["insts"] if x["n"] == 0 and not x.get("pair")]
+        referenced = set()
+
+        def go(e):
+            if e[0] in ("ref", "bref"):
+                referenced.add((e[1], e[2]))
+            elif e[0] == "sl":
+                go(e[1])
+            elif e[0] == "cat":
+                for q in e[1]:
+                    go(q)
+        for x in md["insts"]:
+            for port, e in x["conns"]:
+                go(e)
+        for _ in range(tries):
+            if len(single) < 2:
+                break
+            x, y = r.sample(single, 2)
+            px = [(port, e) for port, e in x["conns"] if e[0] not in ("ref", "bref", "nc", "bun") and (x["name"], port) not in referenced]
+            py = [(port, e) for port, e in y["conns"] if e[0] not in ("ref", "bref", "nc", "bun") and (y["name"], port) not in referenced]
+            if not px or not py:
+                continue
+            p, _ = r.choice(px)
+            q, _ = r.choice(py)
+            tw = lambda z, port: dict(D.target_ports(design, z["of"])).get(port)
+            if tw(x, p) is None or tw(x, p) != tw(y, q):
+                continue
+            x["conns"] = [c for c in x["conns"] if c[0] != p]
+            y["conns"] = [[port, ["ref", x["name"], p] if port == q else e] for port, e in y["conns"]]
+            referenced.add((x["name"], p))
+            referenced.add((y["name"], q))     # keep y.q out of further surgery
 
 
 def map_exprs(md, f):
@@ -408,15 +448,15 @@ def adversarial(design, r, rounds=2):
     for _ in range(rounds):
         for mi in reachable(d):
             md = d["mods"][mi]
-            cands = candidates(d, md)
-            if not cands:
+            hot, cold = candidates(d, md)
+            if not hot and not cold:
                 continue
             objs = ([("sig", s[0]) for s in md["sigs"]] * 3 + [("port", p[0]) for p in md["ports"]] +
                     [("inst", x["name"]) for x in md["insts"]] + [("bundle", b[0]) for b in md.get("bundles", [])] +
                     [("nc", s) for s in nc_sites(md)] * 2)
             for _ in range(r.randint(1, 4)):
                 kind, old = r.choice(objs)
-                new = r.choice(cands) + "_" * r.choice([0, 0, 0, 1, 2])
+                new = r.choice(hot if (hot and (not cold or r.random() < 0.85)) else cold) + "_" * r.choice([0, 0, 0, 1, 2])
                 if kind == "nc":
                     if r.random() < 0.4:      # a no-connect named like an existing designer object
                         new = r.choice(designer_names(md))
@@ -688,6 +728,7 @@ def run(run, tier, seed, replay=None):
         k += 1
         base = D.gen_design(r, size=r.choice([1, 2, 2]) if quick else r.choice([1, 2, 3]), nested=r.random() < 0.5)
         base["bdefs"] = []
+        add_ref_groups(base, r)
         adv, n = adversarial(base, r)
         nren += n
         designs.append(with_order(adv, False))
